@@ -1423,6 +1423,9 @@ type c14Explorer struct {
 	countFrom int
 	// deviation bound: at most maxFaulted retention runs with an injected catalogue failure per history
 	maxFaulted int
+	// the subtrees below the first dealDepth operations are dealt to the workers (2 quick, 3 thorough: the deeper
+	// tree of thorough is very uneven below some second operations)
+	dealDepth int
 }
 
 // replay builds a fresh world and re-executes path (already validated steps).
@@ -1449,15 +1452,22 @@ func (x *c14Explorer) replay(path []string) *c14World {
 	return w
 }
 
-// owns: the transition path+op is counted (and its state recorded) by exactly one worker.
-func (x *c14Explorer) owns(path []string, oi int) bool {
-	switch len(path) {
-	case 0:
-		return kit.Mine(x.itemBase + oi*len(c14Ops))
-	case 1:
-		return kit.Mine(x.itemBase + c14OpIndex(path[0])*len(c14Ops) + oi)
+// owns: the transition path+op is counted (and its state recorded) by exactly one worker. Subtrees below
+// the first dealDepth operations are dealt to the workers; the transitions above are executed by every
+// worker (to get there) and counted by the one the same numbering assigns them to.
+func (x *c14Explorer) owns(path []string, next string) bool {
+	if len(path) >= x.dealDepth {
+		return true
 	}
-	return true
+	n := 0
+	for _, op := range path {
+		n = n*len(c14Ops) + c14OpIndex(op)
+	}
+	n = n*len(c14Ops) + c14OpIndex(next)
+	for i := len(path) + 1; i < x.dealDepth; i++ { // numbering of the level above = first child of the level below
+		n *= len(c14Ops)
+	}
+	return kit.Mine(x.itemBase + n)
 }
 
 // visit explores every extension of path; w is the live world after path (owned, closed here).
@@ -1475,7 +1485,7 @@ func (x *c14Explorer) visit(w *c14World, path []string) {
 	nCalls := -1 // catalogue calls of the fault-free run from this state; -1: not known yet
 	var byKind map[string]int
 	faultBudget := x.maxFaulted - c14FaultOpsIn(path)
-	for oi, op := range alphabet {
+	for _, op := range alphabet {
 		if x.stop || x.rep.Expired() {
 			x.stop = true
 			break
@@ -1496,10 +1506,10 @@ func (x *c14Explorer) visit(w *c14World, path []string) {
 				}
 			}
 		}
-		if len(path) == 1 && !x.owns(path, oi) {
-			continue // second operation: subtrees are dealt to the workers
+		if len(path) == x.dealDepth-1 && !x.owns(path, op) {
+			continue // subtrees below the first dealDepth operations are dealt to the workers
 		}
-		counted := x.owns(path, oi)
+		counted := x.owns(path, op)
 		if len(path) < x.countFrom || (x.countFrom > 0 && len(path) == x.countFrom && c14IsRun(op)) {
 			counted = false
 		}
@@ -1768,6 +1778,16 @@ func c14Main(t *testing.T, rep *kit.Report) {
 		fmt.Sscanf(d, "%d", &maxFaulted)
 	}
 	lastOps := c14RunOps
+	dealDepth := 2
+	if kit.Thorough() {
+		dealDepth = 3
+	}
+	if dealDepth > maxLen-1 {
+		dealDepth = maxLen - 1
+	}
+	if dealDepth < 1 {
+		dealDepth = 1
+	}
 	rep.Count("max_depth", 0)
 	rep.Max("max_depth", int64(maxLen))
 	rep.Count("max_faulted_runs_per_history", 0)
@@ -1790,8 +1810,8 @@ func c14Main(t *testing.T, rep *kit.Report) {
 	for _, d0 := range []int{2, 3, 0} {
 		for _, init := range []string{"open", "cat"} {
 			x := &c14Explorer{rep: rep, scratch: scratch, maxLen: maxLen, inner: c14Ops, last: lastOps,
-				d0: d0, init: init, failed: map[string]bool{}, itemBase: item, maxFaulted: maxFaulted}
-			item += len(c14Ops) * len(c14Ops)
+				d0: d0, init: init, failed: map[string]bool{}, itemBase: item, maxFaulted: maxFaulted, dealDepth: dealDepth}
+			item += len(c14Ops) * len(c14Ops) * len(c14Ops)
 			x.visit(nil, nil)
 			if x.stop {
 				return
@@ -1808,8 +1828,8 @@ func c14Main(t *testing.T, rep *kit.Report) {
 		for _, d0 := range []int{2, 3, 0} {
 			for _, init := range []string{"open", "cat"} {
 				x := &c14Explorer{rep: rep, scratch: scratch, maxLen: maxLen + 1, inner: core, last: coreLast,
-					d0: d0, init: init, failed: map[string]bool{}, itemBase: item, countFrom: maxLen - 1, maxFaulted: maxFaulted}
-				item += len(c14Ops) * len(c14Ops)
+					d0: d0, init: init, failed: map[string]bool{}, itemBase: item, countFrom: maxLen - 1, maxFaulted: maxFaulted, dealDepth: dealDepth}
+				item += len(c14Ops) * len(c14Ops) * len(c14Ops)
 				x.visit(nil, nil)
 				if x.stop {
 					return
